@@ -9,6 +9,11 @@ An op is a JSON-able list:
   ['seta', e, attr, value]  ['setns', e, ns, local, value]  ['rma', e, attr]
   ['ctor', newid, factory, kwargs, parent|None, textid|None, cdataid|None]
        kwargs: list of [name, value]; 'text'/'cdata' keywords create the child ids textid/cdataid
+  ['ghost', 'copy', newid, src]      newid = copy.copy(src): a second object with the same parent / sibling pointers that is in no
+                                     child list (an element copy gets its own child list and attribute dict, as the model's record copy)
+  ['ghost', 'handrm', p, c]          p.childNodes.remove(c) by hand: c keeps saying "my parent is p"
+  ['ghost', 'setparent', c, p]       c.parentNode = p by hand: c says "my parent is p", p does not list it
+       (states only a caller's own pointer surgery reaches; the DOM calls made in them must still be all-or-nothing)
 
 `World.apply(op)` runs it on the real objects and returns 'ok' / 'err <Enum>';
 `World.line(op)` is the request line for the driver (computed BEFORE the op is applied: the
@@ -160,6 +165,8 @@ class World(object):
             return 'rma %d %s %s %s %d' % (op[1], b(known), b(tup), b(allowed), self.keytok(key) if key else 0)
         if k == 'ctor':
             return self.ctor_line(op)
+        if k == 'ghost':
+            return {'copy': 'gcopy %d %d', 'handrm': 'gkids %d %d', 'setparent': 'gpar %d %d'}[op[1]] % (op[2], op[3])
         raise ValueError(op)
 
     def attr_key(self, qname, attr):
@@ -261,6 +268,24 @@ class World(object):
                 N[op[1]].removeAttribute(attr)
             elif k == 'ctor':
                 self.apply_ctor(op)
+            elif k == 'ghost':
+                if op[1] == 'copy':
+                    import copy
+                    g = copy.copy(N[op[3]])
+                    if g.nodeType == 1:
+                        g.childNodes = list(g.childNodes)
+                        g.attributes = dict(g.attributes)
+                    self.reg(op[2], g)
+                elif op[1] == 'handrm':
+                    kids = N[op[2]].childNodes
+                    for j, c in enumerate(kids):
+                        if c is N[op[3]]:
+                            del kids[j]
+                            break
+                elif op[1] == 'setparent':
+                    N[op[2]].parentNode = N[op[3]]
+                else:
+                    raise ValueError(op)
             else:
                 raise ValueError(op)
             return 'ok'
